@@ -29,6 +29,12 @@ def history(ctx):
     prefixes = ["prov", "xsd", "xsi", "b"]  # every prefix spelled so far in this history
     uris = []        # every namespace URI spelled so far
 
+    def shadow_request(si, p, u):
+        # ... also when the bundle only records the prefix as an alias (_prefix_renamed_map) of an existing namespace
+        if si > 0 and len(p) > 0:
+            for dn in scopes[0].namespaces:
+                ctx.finding("C03.bundle_shadows_parent_prefix", dn.prefix == p and dn.uri != u)
+
     def shadow():
         # region of open finding C03.bundle_shadows_parent_prefix: a prefix (given or minted, e.g. xsd_1) is bound
         # in a bundle and in the document to different URIs; 'p:l' strings resolved through the document before, or
@@ -65,6 +71,7 @@ def history(ctx):
             p = ctx.str("p", B["P"], 1, "prefix")
             u = ctx.str("u", B["U"], 2, "uri")
             seen(p, u)
+            shadow_request(si, p, u)
             before = [(n.prefix, n.uri) for n in S.namespaces]
             ns = S.add_namespace(p, u)
             ctx.check(ns.uri == u, "add_namespace(%s) returned a namespace with another URI" % si)
@@ -92,6 +99,7 @@ def history(ctx):
                 else:
                     p = ctx.str("p", B["P"], 1, "prefix")
                 seen(p, u)
+                shadow_request(si, p, u)
                 q = QualifiedName(Namespace(p, u), l)
                 r = S.valid_qualified_name(q)
                 ctx.check(r is not None, "QualifiedName resolved to None")
